@@ -228,8 +228,32 @@ structure SLv where
   index : Nat
   deriving Inhabited
 
+/-- `verification_type_info`; `object` with the pool index used, `uninit` with the index of the `new` instruction -/
+inductive SVType where
+  | top | int | float | double | long | null | uninitThis
+  | object (cp : Nat) (c : JStr)
+  | uninit (t : Nat)
+  deriving Inhabited
+
+inductive SFrameKind where
+  | same
+  | same1 (v : SVType)
+  | chop (k : Nat)
+  | append (vs : List SVType)
+  | full (locals stack : List SVType)
+  deriving Inhabited
+
+/-- one `stack_map_frame`: the instruction it describes, the choice between the compact and the extended form
+(`same_frame`/`same_frame_extended`, `same_locals_1_stack_item_frame`/`…_extended`), and its contents -/
+structure SFrame where
+  at_ : Nat
+  ext : Bool
+  kind : SFrameKind
+  deriving Inhabited
+
 /-- the attributes of `Code` inside the proved fragment, in file order; `nameCp` is the pool index of the attribute name -/
 inductive SCodeAttr where
+  | frames (nameCp : Nat) (fs : List SFrame)
   | lines (nameCp : Nat) (entries : List (Nat × Nat))
   | lvt (nameCp : Nat) (entries : List SLv)
   | lvtt (nameCp : Nat) (entries : List SLv)
@@ -253,7 +277,32 @@ def SLv.encode (pos : Nat → Nat) (v : SLv) : Bytes :=
 /-- `attribute_name_index`, `attribute_length`, body -/
 def attrFrame (nameCp : Nat) (body : Bytes) : Bytes := be16 nameCp ++ be32 body.length ++ body
 
+def SVType.encode (pos : Nat → Nat) : SVType → Bytes
+  | .top => [0] | .int => [1] | .float => [2] | .double => [3] | .long => [4] | .null => [5] | .uninitThis => [6]
+  | .object cp _ => 7 :: be16 cp
+  | .uninit t => 8 :: be16 (pos t)
+
+/-- `offset_delta` of a frame at offset `off` when the previous frame (if any) is at offset `prev` -/
+def frameDelta (prev : Option Nat) (off : Nat) : Nat :=
+  match prev with
+  | none => off
+  | some p => off - p - 1
+
+def SFrame.encode (pos : Nat → Nat) (prev : Option Nat) (f : SFrame) : Bytes :=
+  let d := frameDelta prev (pos f.at_)
+  match f.kind with
+  | .same => if f.ext then 251 :: be16 d else [d]
+  | .same1 v => if f.ext then 247 :: (be16 d ++ v.encode pos) else (64 + d) :: v.encode pos
+  | .chop k => (251 - k) :: be16 d
+  | .append vs => (251 + vs.length) :: (be16 d ++ vs.flatMap (SVType.encode pos))
+  | .full ls ss => 255 :: (be16 d ++ (be16 ls.length ++ ls.flatMap (SVType.encode pos)) ++ (be16 ss.length ++ ss.flatMap (SVType.encode pos)))
+
+def encFrames (pos : Nat → Nat) : Option Nat → List SFrame → Bytes
+  | _, [] => []
+  | prev, f :: fs => f.encode pos prev ++ encFrames pos (some (pos f.at_)) fs
+
 def SCodeAttr.encode (pos : Nat → Nat) : SCodeAttr → Bytes
+  | .frames n fs => attrFrame n (be16 fs.length ++ encFrames pos none fs)
   | .lines n es => attrFrame n (be16 es.length ++ es.flatMap (fun e => be16 (pos e.1) ++ be16 e.2))
   | .lvt n es => attrFrame n (be16 es.length ++ es.flatMap (SLv.encode pos))
   | .lvtt n es => attrFrame n (be16 es.length ++ es.flatMap (SLv.encode pos))
@@ -278,14 +327,46 @@ def SLv.Legal (p : Pool) (n : Nat) (v : SLv) : Prop :=
   v.start < n ∧ v.start ≤ v.end_ ∧ v.end_ ≤ n ∧ v.nameCp < 65536 ∧ v.descCp < 65536 ∧ v.index < 65536 ∧
     p.getUtf8 v.nameCp = .ok v.name ∧ validUnqualified v.name = true ∧ p.getUtf8 v.descCp = .ok v.desc
 
-def SCodeAttr.Legal (p : Pool) (n : Nat) : SCodeAttr → Prop
+def SVType.Legal (p : Pool) (n : Nat) : SVType → Prop
+  | .object cp c => cp < 65536 ∧ p.getClass cp = .ok c
+  | .uninit t => t < n
+  | _ => True
+
+def SFrameKind.Legal (p : Pool) (n : Nat) : SFrameKind → Prop
+  | .same => True
+  | .same1 v => v.Legal p n
+  | .chop k => 1 ≤ k ∧ k ≤ 3
+  | .append vs => 1 ≤ vs.length ∧ vs.length ≤ 3 ∧ ∀ v ∈ vs, v.Legal p n
+  | .full ls ss => ls.length < 65536 ∧ ss.length < 65536 ∧ (∀ v ∈ ls, v.Legal p n) ∧ ∀ v ∈ ss, v.Legal p n
+
+/-- frames describe strictly increasing instructions; the compact forms need `offset_delta ≤ 63` -/
+def framesLegal (p : Pool) (n : Nat) (pos : Nat → Nat) : Option Nat → List SFrame → Prop
+  | _, [] => True
+  | prev, f :: fs =>
+    f.at_ < n ∧ (match prev with | none => True | some i => i < f.at_) ∧ f.kind.Legal p n ∧
+      (f.ext = false → frameDelta (prev.map pos) (pos f.at_) ≤ 63) ∧ framesLegal p n pos (some f.at_) fs
+
+def SCodeAttr.Legal (p : Pool) (n : Nat) (pos : Nat → Nat) : SCodeAttr → Prop
+  | .frames nc fs => nc < 65536 ∧ p.getUtf8 nc = .ok sStackMapTable ∧ fs.length < 65536 ∧ framesLegal p n pos none fs ∧
+      (be16 fs.length ++ encFrames pos none fs).length < 4294967296
   | .lines nc es => nc < 65536 ∧ p.getUtf8 nc = .ok sLineNumberTable ∧ es.length < 65536 ∧ ∀ e ∈ es, e.1 < n ∧ e.2 < 65536
   | .lvt nc es => nc < 65536 ∧ p.getUtf8 nc = .ok sLocalVariableTable ∧ es.length < 65536 ∧ ∀ e ∈ es, e.Legal p n
   | .lvtt nc es => nc < 65536 ∧ p.getUtf8 nc = .ok sLocalVariableTypeTable ∧ es.length < 65536 ∧ ∀ e ∈ es, e.Legal p n
   | .unknown nc name b => nc < 65536 ∧ p.getUtf8 nc = .ok name ∧ name ∉ codeAttrNames ∧ b.length < 4294967296
 
 /-- number of label look-ups an attribute causes (bounds the label counter) -/
+def SVType.labelRefs : SVType → Nat
+  | .uninit _ => 1
+  | _ => 0
+
+def SFrameKind.labelRefs : SFrameKind → Nat
+  | .same1 v => v.labelRefs
+  | .append vs => (vs.map SVType.labelRefs).sum
+  | .full ls ss => (ls.map SVType.labelRefs).sum + (ss.map SVType.labelRefs).sum
+  | _ => 0
+
 def SCodeAttr.labelRefs : SCodeAttr → Nat
+  | .frames _ fs => (fs.map (fun f => f.kind.labelRefs + 1)).sum
   | .lines _ es => es.length
   | .lvt _ es => 2 * es.length
   | .lvtt _ es => 2 * es.length
@@ -301,7 +382,9 @@ structure CodeLayout.Legal (p : Pool) (bsms : Option (List Bsm)) (c : CodeLayout
   nExc : c.exceptions.length < 65536
   exc : ∀ e ∈ c.exceptions, e.Legal p c.insns.length
   nAttrs : c.attrs.length < 65536
-  attrs : ∀ a ∈ c.attrs, a.Legal p c.insns.length
+  attrs : ∀ a ∈ c.attrs, a.Legal p c.insns.length c.pos
+  /-- at most one `StackMapTable` -/
+  oneFrames : (c.attrs.filter (fun a => match a with | .frames _ _ => true | _ => false)).length ≤ 1
   /-- the reader numbers labels in a `u16`: fewer than 65535 label references (a method with more panics the reader) -/
   refs : c.labelRefs < 65535
 
@@ -327,10 +410,38 @@ def unknownsOf : List SCodeAttr → List Attr
   | .unknown _ name b :: r => ⟨name, b⟩ :: unknownsOf r
   | _ :: r => unknownsOf r
 
-/-- the facts: instructions with their targets as instruction indices, no label carriers -/
+def SVType.fact : SVType → VType
+  | .top => .top | .int => .int | .float => .float | .double => .double | .long => .long | .null => .null
+  | .uninitThis => .uninitThis
+  | .object _ c => .object c
+  | .uninit t => .uninit t
+
+def SFrameKind.fact : SFrameKind → Frame
+  | .same => .same
+  | .same1 v => .same1 v.fact
+  | .chop k => .chop k
+  | .append vs => .append (vs.map SVType.fact)
+  | .full ls ss => .full (ls.map SVType.fact) (ss.map SVType.fact)
+
+/-- the frames of the (at most one) `StackMapTable` -/
+def framesOf : List SCodeAttr → List SFrame
+  | [] => []
+  | .frames _ fs :: _ => fs
+  | _ :: r => framesOf r
+
+/-- instruction entries from index `k` on; `rem` = the frames not yet attached, in increasing order of the instruction
+they describe: a frame is attached to the instruction whose index it names -/
+def factEntries : List SFrame → Nat → List SInsn → List InsnEntry
+  | _, _, [] => []
+  | [], k, si :: r => ⟨none, none, si.insn⟩ :: factEntries [] (k + 1) r
+  | f :: rest, k, si :: r =>
+    if f.at_ = k then ⟨none, some f.kind.fact, si.insn⟩ :: factEntries rest (k + 1) r
+    else ⟨none, none, si.insn⟩ :: factEntries (f :: rest) (k + 1) r
+
+/-- the facts: instructions with their targets as instruction indices and their frames, no label carriers -/
 def CodeLayout.facts (c : CodeLayout) : Code :=
   { maxStack := c.maxStack, maxLocals := c.maxLocals,
-    insns := c.insns.map (fun si => ⟨none, none, si.insn⟩),
+    insns := factEntries (framesOf c.attrs) 0 c.insns,
     exceptions := c.exceptions.map (fun e => ⟨e.start, e.end_, e.handler, e.catch_⟩),
     lastLabel := none,
     lines := linesOf c.attrs, locals := localsOf c.attrs, rvta := [], ritva := [], attrs := unknownsOf c.attrs }
